@@ -299,7 +299,8 @@ pub fn check_main(scn: &dyn Scenario, prop_arg: &str, opts: &CheckOptions) -> i3
     };
 
     // determinism sample: >= 2 % of the cases (min 16) are executed a second time in a different process
-    let n_recheck = ((total / 50).max(16)).min(total);
+    // (VSIM_RECHECK_ALL: the determinism self-test executes every case a second time in another process)
+    let n_recheck = if std::env::var_os("VSIM_RECHECK_ALL").is_some() { total } else { ((total / 50).max(16)).min(total) };
     let mut rechecks: Vec<Vec<u64>> = vec![vec![]; jobs];
     for k in 0..n_recheck {
         let idx = (k * (total / n_recheck.max(1)).max(1)) % total;
